@@ -61,6 +61,8 @@ structure Series where
   viaRW : Bool := false
   /-- keys whose value is sent as JSON `true`, `null`, or as a string with an invalid escape sequence: not a tag value -/
   badKeys : List String := []
+  /-- some OTSDB datapoint of the series spelled the metric name with a JSON escape (`\u0063pu` for `cpu`): the same name -/
+  nameEscaped : Bool := false
 deriving Repr, Inhabited
 
 inductive MOp where | eq | ne | re | nre
@@ -235,8 +237,14 @@ def aggregated (a : Agg) (sel : List (Series × List (Nat × Nat))) : Option (Li
 /-! ### input classes in which the engine deviates or deviated (see known_findings.txt), and latitude
 
 Classes of RECORDED deviations (`known:` lines): `absent-label-matcher` (matchers that an absent label satisfies),
-`value-has-comma`, `empty-group-key`, `name-regex-same-tagset` (aggregations only).
-Repaired as well (pending c09-14 / c09-15), still computed: `agg-value-has-brace`, `binop-label-order`, `binop-trailing-comma`.
+`value-has-comma`, `empty-group-key`, `name-regex-same-tagset` (aggregations only), `crash-before-tags-flush` (computed
+by the Oracle from the history tokens tf / cr: a series first seen after the last tags-tree flush before a crash).
+Repaired as well (c09-14 / c09-15), still computed: `agg-value-has-brace`, `binop-label-order`, `binop-trailing-comma`.
+Repaired in the second metrics round (pending c08-1, c08-2, c09-16 … c09-25), computed here, in `exprClasses` and in
+Oracle/E2EM.lean: `tag-value-not-a-string`, `escaped-metric-name`, `star-literal-matcher`, `label-values-of-all-keys`,
+`label-values-first-metric-only`, `vector-matching-label-chars`, `binop-one-sided-timestamp`, `set-operator-with-on`,
+`binop-division-by-zero`, `unary-minus`, `comparison-scalar-on-the-left`, `empty-intermediate-vector`,
+`mixed-name-vector-operand`.
 Classes of REPAIRED deviations (`fixed:` lines) are still computed, so that a disagreement in such a class is
 reported under its old name should the defect return: `tsid-preimage-collision`, `no-tags`,
 `json-escaped-tag-value`, `same-label-twice`, `regex-on-empty-value`, `tag-value-over-64k`, `matcher-on-missing-key`,
@@ -337,7 +345,10 @@ def classes (ds : List Series) (q : Query) (sel : List (Series × List (Nat × N
   -- (repaired, c08-1) some ingested series has a tag whose value is not a string or a number: its first datapoint used to
   -- be rejected AFTER the series had been created (served although rejected; later datapoints accepted without their tags)
   let c10 := if ingested.any (fun s => !s.badKeys.isEmpty) then ["tag-value-not-a-string"] else []
-  c1 ++ c2 ++ c3 ++ c3b ++ c4 ++ c5 ++ c6 ++ c6b ++ c6c ++ c6d ++ c6e ++ c6f ++ c7 ++ c8 ++ c9 ++ c10
+  -- (repaired, c08-2) the metric name of some ingested series was spelled with a JSON escape by some datapoint: it used to be
+  -- stored with the escape sequence as its name
+  let c11 := if ingested.any (·.nameEscaped) then ["escaped-metric-name"] else []
+  c1 ++ c2 ++ c3 ++ c3b ++ c4 ++ c5 ++ c6 ++ c6b ++ c6c ++ c6d ++ c6e ++ c6f ++ c7 ++ c8 ++ c9 ++ c10 ++ c11
 
 def isSmallInt (q : Rat) : Bool := q.den == 1 && q.num.natAbs < pow2 40
 
@@ -422,9 +433,13 @@ def applyOpK (op : BinOp) (retBool : Bool) (x y keep : Rat) : Option BinPt :=
   match op with
   | .add => some (.val (x + y))
   | .sub => some (.val (x - y))
-  | .mul => some (.val (x * y))
-  | .div => if y == 0 then some (if x == 0 then .nan else .inf (x < 0)) else some (.val (x / y))
-  | .mod => if y == 0 then some .nan else some (.val ((Int.tmod x.num y.num : Int) : Rat))
+  -- a zero that float64 arithmetic may give the sign "-" (0 * -5, 0 / -5, -4 % 2, -(0)) is not judged: as a divisor
+  -- further up it decides between +Inf and -Inf
+  | .mul => if x * y == 0 && (x < 0 || y < 0) then some .open else some (.val (x * y))
+  | .div => if y == 0 then some (if x == 0 then .nan else .inf (x < 0))
+            else if x == 0 && y < 0 then some .open else some (.val (x / y))
+  | .mod => if y == 0 then some .nan else if Int.tmod x.num y.num == 0 && x < 0 then some .open
+            else some (.val ((Int.tmod x.num y.num : Int) : Rat))
   | .pow => if 0 ≤ y.num && y.num ≤ 4 && x.num.natAbs ≤ 8192 then some (.val ((x.num ^ y.num.toNat : Int) : Rat)) else some .open
   | .eq => cmp (x == y)
   | .ne => cmp (x != y)
@@ -547,7 +562,7 @@ inductive XVal where
 deriving Repr
 
 def negPt : BinPt → BinPt
-  | .val v => .val (-v)
+  | .val v => if v == 0 then .open else .val (-v)
   | .inf n => .inf (!n)
   | p => p
 
@@ -612,7 +627,11 @@ def sameTimestamps (x y : XElem) : Bool :=
     `vector-matching-label-chars` on()/ignoring() over elements one of whose label values has a character that is not a
        letter, digit, underscore or white space (the values used to be cut by a regular expression);
     `set-operator-with-on`      and / or / unless with on()/ignoring() (the matching clause used to be ignored);
-    `unary-minus`               -x (used to be evaluated as x) -/
+    `unary-minus`               -x (used to be evaluated as x);
+    `comparison-scalar-on-the-left` a comparison filter whose LEFT operand is a computed scalar, or `<number> != v` (the
+       scalar used to be kept instead of the sample of the vector);
+    `empty-intermediate-vector` an operand that is itself an expression and evaluates to the empty vector (the query
+       used to fail) -/
 def wordChar (c : Char) : Bool := c.isAlphanum || c == '_' || c == ' ' || c == '\t' || c == '\n'
 
 def vvClasses (m : VMatch) (op : BinOp) (l r : List XElem) : List String :=
@@ -624,15 +643,43 @@ def vvClasses (m : VMatch) (op : BinOp) (l r : List XElem) : List String :=
      then ["vector-matching-label-chars"] else []) ++
   (if !m.isDefault && op.isSet then ["set-operator-with-on"] else [])
 
+def Expr.isLeaf : Expr → Bool
+  | .vec _ => true
+  | .num _ => true
+  | _ => false
+
+def emptyInner (ds : List Series) (start end_ : Nat) (e : Expr) : Bool :=
+  !e.isLeaf && (match evalExpr ds start end_ e with
+    | some (.vector es) => es.all (·.2.isEmpty)
+    | _ => false)
+
+/-- the metric names under which the engine files the elements of the value of an expression: a result element keeps the
+    id of its left element, `or` adds the ids of right elements -/
+def Expr.idNames : Expr → List String
+  | .vec o => (o.matchers.filter (fun m => m.label == "__name__" && m.op == .eq)).map (·.value)
+  | .num _ => []
+  | .neg e => e.idNames
+  | .bin op _ _ l r => if op == .or then l.idNames ++ r.idNames else (if l.idNames.isEmpty then r.idNames else l.idNames)
+
+def distinctNames (l : List String) : Nat := (dedup l).length
+
 def exprClasses (ds : List Series) (start end_ : Nat) : Expr → List String
   | .vec _ => []
   | .num _ => []
   | .neg e => "unary-minus" :: exprClasses ds start end_ e
   | .bin op b m l r =>
     exprClasses ds start end_ l ++ exprClasses ds start end_ r ++
+    -- (repaired, c09-23) an operand that is itself an expression and has no element made the whole query fail
+    (if emptyInner ds start end_ l || emptyInner ds start end_ r then ["empty-intermediate-vector"] else []) ++
+    -- an operand vector whose ids start with DIFFERENT metric names (it comes from `or`): the engine cuts the label part out
+    -- of every id at the length of ONE of these names, picked by map iteration order (class mixed-name-vector-operand)
     (match evalExpr ds start end_ l, evalExpr ds start end_ r with
-     | some (.vector le), some (.vector re) => vvClasses m op le re
+     | some (.vector le), some (.vector re) => vvClasses m op le re ++
+        (if distinctNames l.idNames > 1 || distinctNames r.idNames > 1 then ["mixed-name-vector-operand"] else [])
      | some (.vector _), some (.scalar y) => if op == .div && y == 0 && b == false then ["binop-division-by-zero"] else []
+     -- (repaired, c09-22) a comparison filter with a COMPUTED scalar on the left, and `<number> != v`, kept the scalar instead
+     -- of the sample of the vector
+     | some (.scalar _), some (.vector _) => if op.isCmp && !b && (!l.isLeaf || op == .ne) then ["comparison-scalar-on-the-left"] else []
      | _, _ => [])
 
 /-- the order in which the engine writes the label keys of a series into its id: the keys with a (non-name) value
